@@ -86,6 +86,103 @@ theorem run_bridge_ptr (dec : String → G) (tw : String → Nat) :
       simp only [List.filterMap_cons, this]
       exact hr
 
+/-! ### the reference terminal accepts the emulator's state -/
+
+open VaxisModel.Model.EmuAbs (absCell absRow absStyle absCol) in
+/-- One cell: the emulator cell shows the display cell (`C12Sim.CellRel`), the reference terminal's cell
+    equals the display cell up to `TCell.norm` (`C06Bridge.CellEq`) ⇒ the reference terminal's cell
+    ACCEPTS the abstraction of the emulator cell (`TCell.accepts`: C06's comparison). -/
+theorem cell_accepts (dec : String → G) (hd : dec "20" = [32]) (hemp : dec "" = []) (dc : DCell) (tc : TCell)
+    (ec : Model.Emu.ECell) (h1 : CellRel dec dc ec) (h2 : CellEq dec dc tc) : tc.accepts (absCell ec) = true := by
+  unfold CellEq at h2
+  cases dc with
+  | cont =>
+    have : tc = .cont := by
+      cases tc with
+      | glyph g w st l => simp only [mapCell, TCell.norm] at h2; split at h2 <;> cases h2
+      | blank b => cases h2
+      | cont => rfl
+      | poison => cases h2
+    subst this; rfl
+  | poison =>
+    have : tc = .poison := by
+      cases tc with
+      | glyph g w st l => simp only [mapCell, TCell.norm] at h2; split at h2 <;> cases h2
+      | blank b => cases h2
+      | cont => cases h2
+      | poison => rfl
+    subst this; rfl
+  | glyph g w st lp lk =>
+    have hacc : ∀ a : TCell, tc.norm = a.norm → tc.accepts a = true := by
+      intro a ha
+      unfold TCell.accepts
+      cases tc with
+      | poison => rfl
+      | cont => rfl
+      | glyph g' w' st' l' => simpa using ha
+      | blank b => simpa using ha
+    apply hacc
+    rw [← h2]
+    rcases h1 with ⟨a1, a2, a3, a4, a5, _⟩ | ⟨b1, b2, b3, b4, b5, b6, b7⟩
+    · have a2' : ¬ dec g = [] := by rw [← a1]; exact a2
+      simp only [mapCell, absCell, a1, a3, a4, a5, if_neg a2']
+    · subst b3; subst b4; subst b5; subst b7
+      simp only [mapCell, absCell, b1, if_true, hd, hemp, TCell.norm]
+      simp
+
+open VaxisModel.Model.EmuAbs (absRow) in
+/-- **The reference terminal accepts the emulator's grid**: C06's comparison `gridAccepts`, from the two
+    relations to the same display grid. -/
+theorem grid_accepts (dec : String → G) (hd : dec "20" = [32]) (hemp : dec "" = []) (rows cols : Nat)
+    (dg : List (List DCell)) (tg : Spec.Term.TGrid) (eg : Model.Emu.Grid)
+    (h1 : Lemmas.C12Sim.GridRel dec dg eg) (h2 : Lemmas.C06Bridge.GridRel dec rows cols dg tg) :
+    Spec.Term.gridAccepts tg (eg.map absRow) = true := by
+  have hlen : tg.length = eg.length := by rw [h2.tlen, ← h2.dlen, h1.1]
+  unfold Spec.Term.gridAccepts
+  simp only [List.length_map, hlen, decide_true, Bool.true_and, List.all_eq_true]
+  intro p hp
+  obtain ⟨i, hi⟩ := List.getElem?_of_mem hp
+  rw [List.getElem?_zip_eq_some] at hi
+  obtain ⟨ht, he⟩ := hi
+  rw [List.getElem?_map] at he
+  cases hei : eg[i]? with
+  | none => rw [hei] at he; cases he
+  | some er =>
+    rw [hei] at he
+    simp only [Option.map_some, Option.some.injEq] at he
+    have hil : i < dg.length := by
+      rw [h1.1]
+      rcases Nat.lt_or_ge i eg.length with h | h
+      · exact h
+      · rw [List.getElem?_eq_none h] at hei; cases hei
+    have hdr : dg[i]? = some dg[i] := List.getElem?_eq_getElem hil
+    obtain ⟨tr, htr, _, _, hrr⟩ := h2.row i _ hdr
+    rw [ht] at htr
+    cases htr
+    have hr1 := h1.2 i _ er hdr hei
+    rw [← he]
+    unfold Spec.Term.rowAccepts
+    have hl2 : p.1.length = er.length := by rw [← hrr.len, hr1.1]
+    simp only [absRow, List.length_map, hl2, decide_true, Bool.true_and, List.all_eq_true]
+    intro q hq
+    obtain ⟨j, hj⟩ := List.getElem?_of_mem hq
+    rw [List.getElem?_zip_eq_some] at hj
+    obtain ⟨hq1, hq2⟩ := hj
+    rw [List.getElem?_map] at hq2
+    cases hej : er[j]? with
+    | none => rw [hej] at hq2; cases hq2
+    | some ec =>
+      rw [hej] at hq2
+      simp only [Option.map_some, Option.some.injEq] at hq2
+      have hjl : j < dg[i].length := by
+        rw [hr1.1]
+        rcases Nat.lt_or_ge j er.length with h | h
+        · exact h
+        · rw [List.getElem?_eq_none h] at hej; cases hej
+      have hdc : dg[i][j]? = some dg[i][j] := List.getElem?_eq_getElem hjl
+      rw [← hq2]
+      exact cell_accepts dec hd hemp _ _ ec (hr1.2 j _ ec hdc hej) (hrr.cell j _ _ hdc hq1)
+
 /-! ### the tokens of a list of frames -/
 
 /-- Everything the renderer writes for a list of frames (the renderer's memory evolving). -/
@@ -148,7 +245,13 @@ theorem emu_and_term_show (dec : String → G) (cw : String → Nat) (hsp : cw "
       -- the reference terminal of C06, on the same tokens: deterministic, and related to the display `d`
       runExact t ((allToks caps cw s (a :: rest)).filterMap (tokT dec cw)) = some t' ∧ Rel dec d t' ∧
       -- … which shows the application's screen and cursor (C01) and is what the emulator simulates (C12)
-      d.grid = Expected.expectedC cw caps fi.next ∧ CursorAs d fi.cursor ∧ DSim dec d e' rows cols := by
+      d.grid = Expected.expectedC cw caps fi.next ∧ CursorAs d fi.cursor ∧ DSim dec d e' rows cols ∧
+      -- hence: the reference terminal ACCEPTS the emulator's state (C06's comparison: grid cell by cell up
+      -- to `TCell.norm`, cursor row, pending wrap, pen, hyperlink; plus cursor visibility and shape)
+      Spec.Term.gridAccepts t'.primary (e'.active.map Model.EmuAbs.absRow) = true ∧
+      (t'.row : Int) = e'.cur.row ∧ t'.pw = decide (e'.cur.col ≥ (cols : Int)) ∧
+      t'.pen = Model.EmuAbs.absStyle e'.cur.st ∧ t'.link = e'.cur.st.link ∧
+      t'.cursorVisible = e'.mode.dectcem ∧ (t'.cursorShape : Int) = e'.cur.shape := by
   have hoka := hok a (by simp)
   obtain ⟨e1, hr1, hl1, sh1, _, g1⟩ := frame_after_resize_any dec cw hsp hd hemp hlp rows cols s e a hl ha hoka.1.1 hoka.1.2 hoka.2
   obtain ⟨e2, hr2, hl2, _, sh2⟩ := frames_any dec cw hsp hd hemp hlp rows cols rest _ e1 hl1 (fun x hx => hok x (by simp [hx]))
@@ -161,8 +264,13 @@ theorem emu_and_term_show (dec : String → G) (cw : String → Nat) (hsp : cw "
   have hcur : CursorAs ((a :: rest).foldl (stepHC cw caps) s).t fi.cursor := by
     rw [← foldl_cursor caps cw (a :: rest) s fi hlast]
     exact hl2.linked.cursor
+  have hsim := hl2.linked.sim
   refine ⟨e2, t', ((a :: rest).foldl (stepHC cw caps) s).t, by simp only [runFramesCK, hr1, bind, Except.bind]; exact hr2, ?_,
-    hrt, hrel, ?_, hcur, hl2.linked.sim⟩
+    hrt, hrel, ?_, hcur, hsim,
+    grid_accepts dec hd hemp _ _ _ _ _ hsim.grid hrel.grid,
+    by rw [hrel.row]; exact hsim.row, by rw [hrel.pw]; exact hsim.pw, by rw [hrel.pen]; exact hsim.pen,
+    by rw [hrel.link]; exact hsim.link, by rw [hrel.cursorVisible]; exact hsim.vis,
+    by rw [hrel.cursorShape]; exact hsim.shape⟩
   · cases rest with
     | nil =>
       simp only [List.getLast?_singleton, Option.some.injEq] at hlast
@@ -249,7 +357,7 @@ example :
     subst hr
     simp only [List.mem_cons, List.not_mem_nil, or_false] at hc
     rcases hc with rfl | rfl | rfl <;> exact ⟨⟨⟨rfl, by decide, Or.inl rfl⟩, by decide, by decide⟩, by decide⟩
-  obtain ⟨e', t', d, hr, hsh, hrt, hrel, hg, _, _⟩ := emu_and_term_show (caps := emuCapsFull) C12.decEx C12.cwEx rfl rfl rfl
+  obtain ⟨e', t', d, hr, hsh, hrt, hrel, hg, _⟩ := emu_and_term_show (caps := emuCapsFull) C12.decEx C12.cwEx rfl rfl rfl
     C12.lpOk_decEx 1 3 (C12.startState 3 1) e0 (LinkedR.toP hl) _ (rel_start C12.decEx decOk_decEx 1 3 (by decide) (by decide))
     fi [] rfl (by
       intro f hf
